@@ -609,8 +609,40 @@ class TermBuilder:
             self._stack.pop()
         return ("unknown", "def-kind")
 
+    def _with_partial_defs(self, l, t, bb, idx):
+        """apply field stores `_l.f = v` that lie between the whole-local definition and the use (same block before idx,
+        or in a block dominating the use) to an aggregate term"""
+        pds = self.fn.partial_defs(l)
+        if not pds or t[0] != "adt":
+            return t
+        apply = []
+        for (b, i, st) in pds:
+            if len(st.place.proj) != 1 or st.place.proj[0]["k"] != "field":
+                continue
+            if (b == bb and i < idx) or (b != bb and self.fn.dominates(b, bb)):
+                apply.append((b, i, st))
+        if not apply:
+            return t
+        order = {b: n for n, b in enumerate(self.fn.rpo())}
+        apply.sort(key=lambda x: (order.get(x[0], 0), x[1]))
+        fields = list(t[3])
+        for (b, i, st) in apply:
+            name = st.place.proj[0].get("name") or str(st.place.proj[0]["i"])
+            key = ("P", l, b, i)
+            if key in self._stack:
+                continue
+            self._stack.append(key)
+            try:
+                v = self.rvalue(st.rv, b, i)
+            finally:
+                self._stack.pop()
+            fields = [(n, v if n == name else x) for n, x in fields]
+        return ("adt", t[1], t[2], tuple(fields))
+
     def place(self, p, bb, idx, ignore_clobber=False):
         t = self.local(p.local, bb, idx, ignore_clobber)
+        if self.fn.kind != "Promoted":
+            t = self._with_partial_defs(p.local, t, bb, idx)
         for pr in p.proj:
             k = pr["k"]
             if k == "deref":
